@@ -74,7 +74,7 @@ def c16_cases(tier, seed):
         cases.append((AttributeTypeDescription, AttributeTypeDescription(oid="1.2", extensions=e)))
         cases.append((DITContentRuleDescription, DITContentRuleDescription(oid="1.2", extensions=e)))
     # random full combinations
-    for _ in range(600 if tier == "quick" else 6000):
+    for _ in range(600 if tier == "quick" else 60000):
         which = rnd.randrange(3)
         desc = rnd.choice([None] + STRINGS)
         ext = {}
@@ -137,7 +137,7 @@ def gen_sentences(tier, seed):
     rnd = random.Random(seed + 17)
     out = []
     descs = [None, "plain", "it's", "back\\slash", "\\27 literal", "é", "a  b"]
-    n_rounds = 260 if tier == "quick" else 2500
+    n_rounds = 260 if tier == "quick" else 20000
     for i in range(n_rounds):
         S = Spacer(rnd, 0 if i % 5 == 0 else 1)
         paren = rnd.random() < .5
